@@ -79,6 +79,7 @@ template <class T> struct Exact {
 
 static GenOpts opts_for(const std::string &prop, const std::string &tier) {
 	GenOpts g; bool th = tier == "thorough";
+	g.zero_width_support = true;
 	if (prop == "C01") { g.max_block = th ? 32768 : 4096; g.max_coef = th ? 400000 : 100000; }
 	else if (prop == "C02") { g.max_dim = 7; g.max_block = th ? 8192 : 2048; g.max_coef = th ? 200000 : 60000; g.mag_exp_max = 6; }
 	else if (prop == "C05") { g.max_block = th ? 40000 : 8000; g.max_coef = th ? 400000 : 100000; g.min_table_bias = 0.6; }
@@ -89,7 +90,7 @@ static GenOpts opts_for(const std::string &prop, const std::string &tier) {
 static void run_C01(const Args &a, long cs) {
 	Rng r(a.seed, "C01", cs);
 	GenOpts g = opts_for("C01", a.tier);
-	Spec s = gen_spec(r, g);
+	Spec s = gen_spec(r, g); if (s.flavor.find("zero-width-support") != std::string::npos) count("tables-with-a-zero-width-fully-supported-range");
 	Table T; if (!load(T, s)) { viol("C01:load:well-formed-table-rejected", s.full_json()); return; }
 	CHandle C(s);
 	auto Ef = T.get_evaluator<float>(); auto Ed = T.get_evaluator<double>();
@@ -166,7 +167,7 @@ static void run_C02(const Args &a, long cs) {
 	Rng r(a.seed, "C02", cs);
 	GenOpts g = opts_for("C02", a.tier);
 	bool strict = r.coin(0.5); g.strict_increasing = strict;
-	Spec s = gen_spec(r, g);
+	Spec s = gen_spec(r, g); if (s.flavor.find("zero-width-support") != std::string::npos) count("tables-with-a-zero-width-fully-supported-range");
 	Table T; if (!load(T, s)) { viol("C02:load:well-formed-table-rejected", s.full_json()); return; }
 	auto Ef = T.get_evaluator<float>(); auto Ed = T.get_evaluator<double>();
 	if (!s.extents.empty()) count("tables-with-custom-extents");
@@ -419,9 +420,11 @@ static void run_C04(const Args &a, long cs) {
 	std::string fl;
 	for (int d = 0; d < nd; d++) {
 		unsigned o = (unsigned)r.below(6); int nk = 2 * o + 2 + (int)r.below(12);
-		int kind = (int)r.below(8);
+		int kind = (int)r.below(9);
+		if (kind == 8 && o < 2) kind = 0;
+		if (kind == 8) nk = 2 * o + 2 + (int)r.below(o - 1);
 		std::vector<double> k;
-		const char *kn[] = {"unit", "repeated", "tiny1e-300", "huge1e300", "ratio1e12", "denormal", "clamped", "both-signs-near-DBL_MAX(span-overflows)"};
+		const char *kn[] = {"unit", "repeated", "tiny1e-300", "huge1e300", "ratio1e12", "denormal", "clamped", "both-signs-near-DBL_MAX(span-overflows)", "zero-width-supported-range"};
 		double x0, sc;
 		switch (kind) {
 		case 2: sc = 1e-300; x0 = (r.U() - 0.5) * 1e-299; break;
@@ -442,6 +445,7 @@ static void run_C04(const Args &a, long cs) {
 		if (kind == 7) { k.clear(); double lo = -1.6e308 * (0.8 + 0.2 * r.U()), hi = 1.6e308 * (0.8 + 0.2 * r.U()); std::vector<double> u; for (int i = 0; i < nk; i++) u.push_back(r.U()); std::sort(u.begin(), u.end()); u[0] = 0; u[nk - 1] = 1; for (int i = 0; i < nk; i++) k.push_back(lo * (1 - u[i]) + hi * u[i]); for (int i = 1; i < nk; i++) if (!(k[i] > k[i - 1])) k[i] = std::nextafter(k[i - 1], INFINITY); }
 		if (kind == 1) { int run = 1; for (int i = 1; i < nk; i++) { if (k[i] == k[i - 1]) { run++; if (run > (int)o) { for (int j = i; j < nk; j++) k[j] += 0.5; run = 1; } } else run = 1; } }
 		if (kind == 6) for (unsigned i = 0; i < o; i++) { k[i] = k[o]; k[nk - 1 - i] = k[nk - 1 - o]; }
+		if (kind == 8) { double v = k[o], sh = k[nk - o - 1] - v; for (int i = (int)o; i < nk; i++) k[i] = i <= nk - (int)o - 1 ? v : k[i] - sh; } // knots[order..nknots-order-1] coincide: the supported range is one point
 		s.order.push_back(o); s.knots.push_back(k); tot *= (size_t)(nk - o - 1);
 		fl += std::string(d ? "," : "") + kn[kind]; count(std::string("knotkind:") + kn[kind]);
 	}
@@ -534,7 +538,7 @@ static void run_C05(const Args &a, long cs) {
 		s.coef.resize(tot); for (auto &c : s.coef) c = (float)(r.U() - 0.5);
 		s.flavor = "pattern";
 		if (r.coin(0.3)) add_custom_extents(r, s);
-	} else s = gen_spec(r, g);
+	} else { s = gen_spec(r, g); if (s.flavor.find("zero-width-support") != std::string::npos) count("tables-with-a-zero-width-fully-supported-range"); }
 	if (!s.extents.empty()) count("tables-with-custom-extents");
 	Table T; if (!load(T, s)) { viol("C05:load:well-formed-table-rejected", s.full_json()); return; }
 	CHandle C(s);
